@@ -437,8 +437,24 @@ def swar_expr(e, consts):
     raise TranslationError("SWAR kernel: unsupported expression %r" % (e,))
 
 
+# the loop shells of swar.rs are modelled by hand (Scan.swar_loop, swar_name_loop, first_bad): their text is
+# pinned, so a change of a loop shell is a translation failure, not a silent divergence from the model
+SWAR_LOOPS = [
+    ('match_uri_vectored', 'fn match_uri_vectored ( bytes : & mut Bytes ) { loop { if let Some ( bytes8 ) = bytes . peek_n :: < ByteBlock > ( BLOCK_SIZE ) { let n = match_uri_char_8_swar ( bytes8 ) ; unsafe { bytes . advance ( n ) ; } if n == BLOCK_SIZE { continue ; } } if let Some ( b ) = bytes . peek ( ) { if is_uri_token ( b ) { unsafe { bytes . advance ( 1 ) ; } continue ; } } break ; } }'),
+    ('match_header_value_vectored', 'fn match_header_value_vectored ( bytes : & mut Bytes ) { loop { if let Some ( bytes8 ) = bytes . peek_n :: < ByteBlock > ( BLOCK_SIZE ) { let n = match_header_value_char_8_swar ( bytes8 ) ; unsafe { bytes . advance ( n ) ; } if n == BLOCK_SIZE { continue ; } } if let Some ( b ) = bytes . peek ( ) { if is_header_value_token ( b ) { unsafe { bytes . advance ( 1 ) ; } continue ; } } break ; } }'),
+    ('match_header_name_vectored', 'fn match_header_name_vectored ( bytes : & mut Bytes ) { while let Some ( block ) = bytes . peek_n :: < ByteBlock > ( BLOCK_SIZE ) { let n = match_block ( is_header_name_token , block ) ; unsafe { bytes . advance ( n ) ; } if n != BLOCK_SIZE { return ; } } unsafe { bytes . advance ( match_tail ( is_header_name_token , bytes . as_ref ( ) ) ) } ; }'),
+    ('match_tail', 'fn match_tail ( f : impl Fn ( u8 ) -> bool , bytes : & [ u8 ] ) -> usize { for ( i , & b ) in bytes . iter ( ) . enumerate ( ) { if ! f ( b ) { return i ; } } bytes . len ( ) }'),
+    ('match_block', 'fn match_block ( f : impl Fn ( u8 ) -> bool , block : ByteBlock ) -> usize { for ( i , & b ) in block . iter ( ) . enumerate ( ) { if ! f ( b ) { return i ; } } BLOCK_SIZE }'),
+]
+
+
 def g2_swar(toks):
     out = []
+    for fn, want in SWAR_LOOPS:
+        hdr, body = fn_body(toks, fn)
+        got = norm(hdr) + " { " + norm(body) + " }"
+        if got != want:
+            raise TranslationError("swar.rs loop shell %s changed (Scan.v models it by hand):\n   got  %s\n   want %s" % (fn, got, want))
     # BLOCK_SIZE
     i = find_item(toks, "const", "BLOCK_SIZE")
     j = i
